@@ -37,11 +37,18 @@ FAMILIES = [
     ("include-chain", -1, False, None, None),       # built specially (many files)
     ("fn-cycle", -1, True, [1, 2, 3, 4], lambda k: "".join("#fn f%d(x) => f%d(x)\n" % (i, (i + 1) % k) for i in range(k)) + "#d8 f0(1)\n"),
     ("asm-cycle", -1, True, [1, 2, 3, 4], lambda k: "#ruledef\n{\n" + "".join("    m%d {x} => asm { m%d {x} }\n" % (i, (i + 1) % k) for i in range(k)) + "}\nm0 1\n"),
-    ("subrule-cycle", -1, True, [1, 2, 3, 4], lambda k: "".join("#subruledef s%d\n{\n    {x: s%d} => x\n}\n" % (i, (i + 1) % k) for i in range(k)) + "#ruledef\n{\n    t {x: s0} => x\n}\nt 1\n"),
+    ("subrule-cycle", -1, True, [1, 2, 3, 4], lambda k: "".join("#subruledef blk%d\n{\n    {x: blk%d} => x\n}\n" % (i, (i + 1) % k) for i in range(k)) + "#ruledef\n{\n    t {x: blk0} => x\n}\nt 1\n"),
     ("concat-doubling", -1, False, [4, 10, 20, 24, 26, 27, 28, 30, 34, 40, 64],
      lambda n: "a0 = 0xff\n" + "".join("a%d = a%d @ a%d\n" % (i, i - 1, i - 1) for i in range(1, n + 1))),
     ("shl-doubling", -1, False, [4, 10, 20, 26, 28, 30, 34, 40, 64],
      lambda n: "a0 = 1\n" + "".join("a%d = a%d << (1 << %d)\n" % (i, i - 1, i) for i in range(1, n + 1))),
+    # mutually left-recursive sub-rule blocks that also have a way out (the last block accepts `x`)
+    ("subrule-cycle-leaf", -1, False, [1, 2, 3, 4, 6],
+     lambda k: "".join("#subruledef blk%d\n{\n    {x: blk%d} => x\n%s}\n" % (i, (i + 1) % k, "    x => 0x01\n" if i == k - 1 else "")
+                       for i in range(k)) + "#ruledef\n{\n    ld {a: blk0} => a\n}\nld x\n"),
+    ("subrule-cycle-infix", -1, False, [1, 2, 3, 4],
+     lambda k: "".join("#subruledef blk%d\n{\n    {x: blk%d} + {y: blk%d} => x @ y\n%s}\n" % (i, (i + 1) % k, (i + 1) % k, "    n{v: u8} => v\n" if i == k - 1 else "")
+                       for i in range(k)) + "#ruledef\n{\n    ld {a: blk0} => a\n}\nld n1 + n2\nld n3\n"),
     ("rule-fn-cycle", -1, True, [1, 2], lambda k: "#fn f(x) => asm { m {x} }\n#ruledef\n{\n    m {x} => f(x)\n}\nm 1\n"),
     ("include-cycle", -1, True, [1, 2, 3, 4], None),
 ]
